@@ -3,7 +3,15 @@
 EXTENDS WrappersOps, Json, IOUtils
 Trace == ndJsonDeserialize(IOEnv.TRACE_FILE)
 VARIABLES l, bad
-Verdict(e) ==
+\* wrappers around another func (deep_lift_shap, saturation_mutagenesis): every output index must equal the logged result of
+\* calling func directly on the input that the index denotes (same seed and keyword arguments), in a SEQUENCE of calls
+FuncVerdict(e) ==
+    IF ~e.same THEN "a caller's tensor was modified"
+    ELSE IF e.st # "ok" THEN "raised on a valid configuration"
+    ELSE IF e.got[1] # e.fact[1] THEN "'before' is not func on the unmodified inputs at every index"
+    ELSE IF e.got[2] # e.fact[2] THEN "an 'after' entry is not func on the input its index denotes"
+    ELSE ""
+Verdict0(e) ==
     LET ex == Expected(e) IN
     IF ~e.same THEN "a caller's tensor was modified"
     ELSE IF ex.zone = "badfact" THEN "the logged shuffles are not shuffles of the stated region"
@@ -13,6 +21,7 @@ Verdict(e) ==
     ELSE IF ex.before # <<>> /\ e.before # ex.before THEN "'before' is not func on the unmodified inputs at every index"
     ELSE IF e.after # ex.after THEN "an 'after'/product entry is not func on the input its index denotes"
     ELSE ""
+Verdict(e) == IF e.isfunc THEN FuncVerdict(e) ELSE Verdict0(e)
 Init == l = 1 /\ bad = <<>>
 Next == /\ l <= Len(Trace) /\ l' = l + 1
         /\ LET v == Verdict(Trace[l]) IN bad' = IF v = "" THEN bad ELSE Append(bad, <<Trace[l].id, v>>)
